@@ -69,15 +69,18 @@ def stage(impl='c'):
     sys.path.insert(0, REPO)
     if impl == 'c':
         so = build_speedups()
-        loader = importlib.machinery.ExtensionFileLoader('genshi._speedups', so)
-        spec = importlib.util.spec_from_file_location('genshi._speedups', so, loader=loader)
-        mod = importlib.util.module_from_spec(spec)
-        sys.modules['genshi._speedups'] = mod
-        try:
-            loader.exec_module(mod)
-        except Exception:
-            del sys.modules['genshi._speedups']
-            raise
+
+        class _Finder(object):
+            """resolve genshi._speedups to the freshly built object, never to a stale .so that
+            may sit in the repository (the extension's init imports genshi.util, so the module
+            must be found through the normal import of the package, not pre-loaded)"""
+            @staticmethod
+            def find_spec(name, path=None, target=None):
+                if name == 'genshi._speedups':
+                    loader = importlib.machinery.ExtensionFileLoader(name, so)
+                    return importlib.util.spec_from_file_location(name, so, loader=loader)
+                return None
+        sys.meta_path.insert(0, _Finder)
     elif impl == 'py':
         sys.modules['genshi._speedups'] = None   # `from genshi._speedups import Markup` -> ImportError
     else:
@@ -89,6 +92,11 @@ def stage(impl='c'):
     is_c = genshi.core.Markup.__module__ == 'genshi._speedups'
     if (impl == 'c') != is_c:
         raise StageError('wanted Markup impl %s, got module %s' % (impl, genshi.core.Markup.__module__))
+    if impl == 'c':
+        m = sys.modules.get('genshi._speedups')
+        if m is None or os.path.abspath(m.__file__) != os.path.abspath(so) or genshi.core.Markup is not m.Markup:
+            raise StageError('genshi.core.Markup does not come from the freshly built extension (%s)'
+                             % getattr(m, '__file__', None))
     return genshi
 
 
